@@ -2558,6 +2558,9 @@ func c15CheckLister(c *Ctx, R4 string, f *ssa.Function) {
 }
 
 var c15Mutants = []Mutant{
+	{Name: "referrers-index-closed-before-decode", File: "registry/remote/repository.go",
+		Old: "\tdefer rc.Close()\n\n\tif err := limitSize(desc, r.MaxMetadataBytes); err != nil {", New: "\trc.Close()\n\n\tif err := limitSize(desc, r.MaxMetadataBytes); err != nil {",
+		Expect: "C15.R1.reader-not-closed-before-read"},
 	{Name: "tag-schema-nonempty-list-dropped", File: "registry/remote/repository.go",
 		Old: "\tif len(filtered) == 0 {\n\t\treturn nil\n\t}\n\treturn fn(filtered)", New: "\tif len(filtered) != 0 {\n\t\treturn nil\n\t}\n\treturn fn(filtered)",
 		Expect: "C15.R3"},
